@@ -11,6 +11,8 @@ The envelope itself on smooth inputs (ill-posed inverse problem) is measured by 
 -/
 import PyAbel.Props.C03
 import PyAbel.Props.C09
+import PyAbel.Props.C02
+import PyAbel.Props.C13
 import Mathlib.Algebra.Order.BigOperators.Ring.Finset
 import Mathlib.Algebra.Order.BigOperators.Group.Finset
 
@@ -58,5 +60,45 @@ theorem step_profile_recovered_exactly (n : ℕ) (c : ℕ → ℝ) (i : ℕ) (hi
     apply sumRange_congr; intro j _
     rw [C09.daun0_eq_abel]
   rw [← e]; exact h
+
+/-- **a-priori envelope for inverting the exact projection of a Lipschitz source** with the degree-0 basis (Daun degree 0,
+    onion peeling): whatever exact inverse `T` of the degree-0 forward matrix is used (triangular solve, stored `D = W⁻¹`),
+    the reconstruction from the true Abel projection sampled at the pixels differs from the source samples by at most
+    `‖T_i‖₁ · L · (n − ½)`, for every size and pixel — the reduction lemma fed with the forward envelope `C02.daun0_forward_error_le`. -/
+theorem exact_projection_recovered_within (n : ℕ) (hn : 0 < n) (T : ℕ → ℕ → ℝ)
+    (hT : ∀ i j, i < n → j < n → ∑ k ∈ range n, T i k * (daun0 j k : ℝ) = if i = j then 1 else 0)
+    (f : ℝ → ℝ) (L : ℝ) (hL : 0 ≤ L) (hcont : Continuous f)
+    (hlip : ∀ r s, 0 ≤ r → 0 ≤ s → |f r - f s| ≤ L * |r - s|)
+    (hsupp : ∀ r, (n : ℝ) - 1 / 2 ≤ r → f r = 0) (i : ℕ) (hi : i < n) :
+    |∑ k ∈ range n, T i k * Abel f k - f i| ≤ (∑ k ∈ range n, |T i k|) * (L * ((n : ℝ) - 1 / 2)) := by
+  have hR : (0 : ℝ) ≤ (n : ℝ) - 1 / 2 := by
+    have : (1 : ℝ) ≤ n := by exact_mod_cast hn
+    linarith
+  refine inverse_error_le n T (fun k j => (daun0 j k : ℝ)) hT (fun j => f j) (fun k => Abel f k) _ ?_ i hi
+  intro k _
+  have h := C02.daun0_forward_error_le n hn f L hL hcont hlip hsupp k
+  rw [C13.sumRange_eq_finset] at h
+  have e : ∑ j ∈ range n, (daun0 j k : ℝ) * f j = ∑ j ∈ range n, f j * (daun0 j k : ℝ) :=
+    Finset.sum_congr rfl (fun j _ => mul_comm _ _)
+  rw [e, abs_sub_comm]
+  refine le_trans h (mul_le_mul_of_nonneg_left ?_ hL)
+  calc hc (((n : ℝ) - 1 / 2) ^ 2 - (k : ℝ) ^ 2) ≤ hc (((n : ℝ) - 1 / 2) ^ 2) := hc_mono (by nlinarith [sq_nonneg (k : ℝ)])
+    _ = (n : ℝ) - 1 / 2 := by rw [hc_of_nonneg (sq_nonneg _), Real.sqrt_sq hR]
+
+/-- non-vacuity of the left-inverse hypothesis: for `n = 1` the forward matrix is `(1)` and `T = (1)` inverts it -/
+private theorem daun0_zero_zero : (daun0 0 0 : ℝ) = 1 := by
+  unfold daun0
+  simp only [sqrt_real]
+  norm_num
+  rw [show (4 : ℝ) = 2 ^ 2 by norm_num, Real.sqrt_sq (by norm_num)]
+  norm_num
+
+example : ∀ i j, i < 1 → j < 1 →
+    ∑ k ∈ range 1, (fun _ _ => (1 : ℝ)) i k * (daun0 j k : ℝ) = if i = j then 1 else 0 := by
+  intro i j hi hj
+  have : i = 0 := by omega
+  have : j = 0 := by omega
+  subst_vars
+  simp [daun0_zero_zero]
 
 end PyAbel.C01
